@@ -125,6 +125,14 @@ class HTTPChannel(wasyncore.dispatcher):
         if self.will_close:
             self.handle_close()
 
+    def handle_expt(self):
+        # TCP urgent ("out-of-band") data. HTTP has no use for it and nothing
+        # here ever reads it, so select()/poll() would report the exceptional
+        # condition on every pass: the main loop would spin, logging a warning
+        # each time, for as long as the client keeps the connection open.
+        # Drop the connection instead.
+        self.handle_close()
+
     def _flush_exception(self, flush, do_close=True):
         if flush:
             try:
